@@ -59,7 +59,7 @@ Section AnyTables.
     step tb lexerr c = Next c' -> Inv lexerr c ->
     exists evs, c_dropped c' = c_dropped c ++ evs /\ (all_trivial evs -> Inv lexerr c').
   Proof.
-    unfold step. intros H HI.
+    unfold step, do_shift, do_reduce, do_accept. intros H HI.
     destruct (c_toks c) as [|t rest] eqn:Htoks; simpl in H; break H; inversion H; subst; clear H; simpl.
     - (* reduce at end of input *)
       eexists. split; [reflexivity|]. intros Htriv.
@@ -83,7 +83,7 @@ Section AnyTables.
   Lemma step_dropped_prefix lexerr c c' :
     step tb lexerr c = Next c' -> exists evs, c_dropped c' = c_dropped c ++ evs.
   Proof.
-    unfold step. intros H.
+    unfold step, do_shift, do_reduce, do_accept. intros H.
     destruct (c_toks c) as [|t rest] eqn:Htoks; simpl in H; break H; inversion H; subst; clear H; simpl;
       eexists; try reflexivity; rewrite app_nil_r; reflexivity.
   Qed.
@@ -101,7 +101,7 @@ Section AnyTables.
   Lemma step_final_ok lexerr c t evs :
     step tb lexerr c = Final (Ok t) evs -> Inv lexerr c -> all_trivial evs -> print true t = s.
   Proof.
-    unfold step. intros H [Ht [Hok Hch]] Htriv. rewrite <- Ht. clear Ht.
+    unfold step, do_shift, do_reduce, do_accept. intros H [Ht [Hok Hch]] Htriv. rewrite <- Ht. clear Ht.
     destruct (c_toks c) as [|tk rest] eqn:Htoks; simpl in H; break H; inversion H; subst; clear H;
       unfold drops in Htriv; simpl in Htriv;
       apply Forall_cons_iff in Htriv; destruct Htriv as [E1 Htriv];
